@@ -116,6 +116,33 @@ def run(ctx):
                                 ctx.mismatch(f"get_vector({n}, {n_e}, JW, utd={utd}, spin={spin}) = {py}, model {j.get('jw')}", case)
                                 if len(ctx.mismatches) >= 3:
                                     return
+    # state carried over between calls: the vector a call returns belongs to the caller - editing it in place (to build
+    # an excited reference, say) must not change what the next call with the same arguments prepares; a user-supplied
+    # vector is not modified by the mapping
+    n = 4
+    for n_e in range(1, n + 1):
+        for spin in [s for s in range(-n_e, n_e + 1) if (n_e + s) % 2 == 0 and (n_e + s) // 2 <= n // 2 and (n_e - s) // 2 <= n // 2]:
+            occ = requested_occupation(n, n_e, spin)
+            for mapping in ("JW", "BK", "scBK", "JKMN"):
+                for utd in (False, True):
+                    case = {"n": n, "n_electrons": n_e, "spin": spin, "mapping": mapping, "up_then_down": utd, "second_call": True}
+                    ctx.case(case, nontrivial=True, sample=False)
+                    ctx.count("ref:second-call")
+                    v1 = get_vector(n, n_e, mapping, up_then_down=utd, spin=spin)
+                    try:
+                        v1[:] = 1 - np.asarray(v1)          # the caller edits its own copy
+                    except Exception:
+                        pass
+                    if not check_vector(ctx, occ, mapping, utd, n_e, spin,
+                                        lambda: get_reference_circuit(n, n_e, mapping, up_then_down=utd, spin=spin), case):
+                        if len(ctx.violations) >= 3:
+                            return
+                    user = np.array(occ)
+                    keep = user.copy()
+                    get_mapped_vector(user, mapping, utd)
+                    if not np.array_equal(user, keep):
+                        ctx.violation(f"get_mapped_vector({mapping}, up_then_down={utd}) modified the occupation vector it was given: {keep.tolist()} -> {user.tolist()}", case)
+                        return
     # user-supplied occupation vectors (alternating ordering), as list and as array
     max_u = ctx.n(4, 6)
     for n in range(2, max_u + 1, 2):
